@@ -123,7 +123,7 @@ func c19Binary(c *Ctx, infos []mappingInfo) {
 	if !c.mustFunc(rule, dec, "mapping.Decode") {
 		return
 	}
-	dpaths, _ := exec(c, dec, nil, 1)
+	dpaths, _ := execPlain(c, dec, nil, 1) // the two-float decoding helper is checked by role (c19DecodedInOrder), whatever its name
 	arms, _ := dispatchArms(dpaths, func(t *Term) bool { return t.isParam(1) })
 	for _, mi := range infos {
 		name := mi.t.Obj().Name()
